@@ -231,7 +231,7 @@ def _run_chunk(chunk, seed):
         SYSTEM = GraphSystem(tier)
     total = None
     for d in descs:
-        r = explore_from(SYSTEM, d, build_graph, depth, seed, 'graph_rewrites')
+        r = explore_from(SYSTEM, d, build_graph, depth, seed, 'graph_rewrites' if depth == 2 else 'graph_rewrites_depth3')
         if total is None:
             total = r
         else:
@@ -249,7 +249,7 @@ def _run_chunk(chunk, seed):
 
 
 def replay_case(space, case, seed):
-    return replay_history(GraphSystem('thorough'), case['init'], build_graph, case['ops'], seed, 'graph_rewrites')
+    return replay_history(GraphSystem('thorough'), case['init'], build_graph, case['ops'], seed, space.name)
 
 
 def sig(case):
@@ -257,12 +257,19 @@ def sig(case):
     return 'ops=' + '>'.join(str(o[0]) for o in ops)
 
 
-def spaces(tier, seed):
-    descs = initial_descs(tier)
-    depth = 2 if tier == 'quick' else 3
+def _space(name, descs, tier, depth):
     chunks = [(tier, depth, descs[i:i + 4]) for i in range(0, len(descs), 4)]
-    return [Space('graph_rewrites', chunks, run_chunk=_run_chunk, sig=sig,
-                  bounds={'initial_graphs': len(descs), 'depth': depth, 'L': [1, 2, 3], 'inner_width<=': 2,
-                          'edge_kinds': list(EDGE_KINDS), 'transitions': ['simplify', 'merge_edges(all mergeable ordered pairs, both directions)',
-                                                                           'rename_node_id(every node -> max+1; smallest and end-terminal node also -> -3, 33)', 'rename_edge_id(every edge -> max+1; smallest and largest also -> -3, 41)',
-                                                                           'flip', 'add(self copy | 2 colliding graphs)']})]
+    return Space(name, chunks, run_chunk=_run_chunk, sig=sig,
+                 bounds={'initial_graphs': len(descs), 'depth': depth, 'L': [1, 2, 3], 'inner_width<=': 2,
+                         'edge_kinds': list(EDGE_KINDS), 'transitions': ['simplify', 'merge_edges(all mergeable ordered pairs, both directions)',
+                                                                          'rename_node_id(every node -> max+1; smallest and end-terminal node also -> -3, 33)',
+                                                                          'rename_edge_id(every edge -> max+1; smallest and largest also -> -3, 41)',
+                                                                          'flip', 'add(self copy | 2 colliding graphs)']})
+
+
+def spaces(tier, seed):
+    if tier == 'quick':
+        return [_space('graph_rewrites', initial_descs('quick'), 'quick', 2)]
+    # thorough: the larger initial set to depth 2, and the quick initial set to depth 3
+    return [_space('graph_rewrites', initial_descs('thorough'), 'thorough', 2),
+            _space('graph_rewrites_depth3', initial_descs('quick'), 'quick', 3)]
